@@ -32,6 +32,7 @@ package parser
 
 import (
 	"fmt"
+	"strconv"
 	"strings"
 	"unicode"
 	"unicode/utf16"
@@ -562,6 +563,28 @@ func (l *lexer) setResult(lax bool, node ast.Node) {
 		l.errors = append(l.errors, err.Error())
 	}
 	l.result = ast
+}
+
+// newInteger returns an ast.IntegerNode for the integer literal lit. If lit
+// is out of range for int64 it records an error and returns a placeholder
+// node rather than letting ast.NewInteger panic.
+func (l *lexer) newInteger(lit string) *ast.IntegerNode {
+	if _, err := strconv.ParseInt(lit, 0, 64); err != nil {
+		l.errorf("integer literal %v is out of range", lit)
+		return ast.NewInteger("0")
+	}
+	return ast.NewInteger(lit)
+}
+
+// newNumeric returns an ast.NumericNode for the numeric literal lit. If lit
+// is out of range for float64 it records an error and returns a placeholder
+// node rather than letting ast.NewNumeric panic.
+func (l *lexer) newNumeric(lit string) *ast.NumericNode {
+	if _, err := strconv.ParseFloat(lit, 64); err != nil {
+		l.errorf("numeric literal %v is out of range", lit)
+		return ast.NewNumeric("0")
+	}
+	return ast.NewNumeric(lit)
 }
 
 // setPred indicates that the path being lexed is a predicate path query.
